@@ -20,7 +20,7 @@ from utype.utils import exceptions as uexc   # noqa: E402
 
 ID = "C18"
 LEVEL = "model_checking"
-RULE = ("(a) 17 recursive declarations (two of them collecting errors, an outer class whose override=True options carry the limit for a nested class without / with a larger one, Optional['N'], 'N' = None, List['N'], Tuple['N', ...], Dict[str, 'N'], Union[int, 'N'], "
+RULE = ("(a) 17 recursive declarations + 4 of them x 8 further options beside the limit (ignore_constraints, no_explicit_cast, no_data_loss, addition, ignore_required, data_first_search, case_insensitive, no_default) (two of them collecting errors, an outer class whose override=True options carry the limit for a nested class without / with a larger one, Optional['N'], 'N' = None, List['N'], Tuple['N', ...], Dict[str, 'N'], Union[int, 'N'], "
         "any_of('N', None), mutual recursion through a second class, List[Optional['N']], @utype.dataclass, DataClass base, a declared "
         "__init__ on a decorated class and on a Schema) x max_depth in {None, 1, 2, 3, 4} x inputs of "
         "data-class depth 1..6 with the nested value at list index 0 / 1 / 2, mapping key 'k' / '' / '0', either union branch, plain or "
@@ -65,6 +65,15 @@ DECLS = {
     "list-collect": ("class N(Schema):\n{opt_collect}    v: int = 0\n    kids: List['N'] = Field(default_factory=list)\n", "N", "kids[]"),
     "list-optional": ("class N(Schema):\n{opt}    v: int = 0\n    kids: List[Optional['N']] = Field(default_factory=list)\n", "N", "kids[]"),
 }
+# the limit next to one other option of the same declaration: no option switches the limit off or moves it
+EXTRA_OPTS = {
+    "ignore-constraints": "ignore_constraints=True", "no-explicit-cast": "no_explicit_cast=True", "no-data-loss": "no_data_loss=True",
+    "addition": "addition=True", "ignore-required": "ignore_required=True", "data-first": "data_first_search=True",
+    "case-insensitive": "case_insensitive=True", "no-default": "no_default=True",
+}
+for _base in ("optional", "list", "dict", "union"):
+    for _ename, _extra in EXTRA_OPTS.items():
+        DECLS[f"{_base}+{_ename}"] = DECLS[_base] + (_extra,)
 LIMITS = [None, 1, 2, 3, 4]
 _SEQ = [0]
 
@@ -188,10 +197,13 @@ def run_shard(shard, tier):
 
 
 def _depth(acc, dname, tier):
-    tmpl, root, how = DECLS[dname]
+    tmpl, root, how, *rest = DECLS[dname]
+    extra = rest[0] if rest else ""
     maxd = _max_input_depth(tier)
     for limit in _limits(tier):
         opt = f"    __options__ = Options(max_depth={limit})\n" if limit else ""
+        if extra:
+            opt = f"    __options__ = Options({f'max_depth={limit}, ' if limit else ''}{extra})\n"
         opt_override = f"    __options__ = Options(max_depth={limit}, override=True)\n" if limit else ""
         opt_collect = (f"    __options__ = Options(max_depth={limit}, collect_errors=True)\n" if limit else
                        "    __options__ = Options(collect_errors=True)\n")
@@ -210,11 +222,13 @@ def _depth(acc, dname, tier):
         # the nested value wrapped in a one-element list / tuple at every level (the documented query-string shape):
         # the wrapper is not a data class and must not change the count
         for wrap in ("list", "tuple"):
+            if "no_explicit_cast" in extra:
+                break       # taking the single element of a sequence for the data class is such a cast: rejected at any depth
             for depth in range(2, maxd + 1):
                 cases.append((f"depth={depth},index=0,key='k',wrap={wrap!r}", build_input(how, depth, 0, "k", wrap=wrap)))
         # the other union branch / a scalar at the nested position
         if how == "nxt" and dname != "plain-default":
-            cases.append(("scalar-branch", {"v": 0, "nxt": None} if dname != "union" else {"v": 0, "nxt": 5}))
+            cases.append(("scalar-branch", {"v": 0, "nxt": None} if dname.split("+")[0] != "union" else {"v": 0, "nxt": 5}))
         # cyclic inputs
         cyc = {"v": 0}
         if how == "nxt":
